@@ -8,7 +8,7 @@ CONFIG = dict(
           "prefix; seeded random long programs over a wide alphabet; every protocol's encoding of "
           "generated values; call-opcode x fate vocabulary matrix; one program per pickle opcode; the identical call repeated 2-3 times through every call opcode; "
           "special-cased callee names from builtins, a stdlib and a non-stdlib module; torch-saved pickles). "
-          "Every refusal is retried on the same object. "
+          "Every refusal is retried on the same object; the tracer and a hand-driven Interpreter are exercised as further decompile paths. "
           "A case is one distinct byte string; non-trivial = the reference VM accepted it, its event "
           "log has >=1 import or call, and fickling decompiled it (so the inclusion oracle ran)."),
     assumptions=[
@@ -71,6 +71,9 @@ def oracle(ctx, label, data, o, names):
         return
     if o.ref_ok and not o.fick_ok and o.parse_err is None and o.fick_stage in ("interpret", "unparse"):
         retry_after_refusal(ctx, label, data, o, names)
+    if o.ref_ok and o.parse_err is None and (o.n_ref_calls or o.n_ref_imports) and (
+            not o.fick_ok or not label.startswith(("exh", "rand")) or int(ch[:2], 16) % 4 == 0):
+        other_decompile_paths(ctx, label, data, o, names)
     if not (o.ref_ok and o.fick_ok):
         return
     if o.exec_err is not None:
@@ -133,6 +136,53 @@ def retry_after_refusal(ctx, label, data, o, names):
                       "decompilation first refused this pickle, then - asked again on the same object - returned a "
                       "program from which calls/imports of the VM are missing",
                       diffrun.witness(label, data, names, decompile=src[:600], missing_event=str(missing[0][0])[:200]))
+
+
+def other_decompile_paths(ctx, label, data, o, names):
+    """The tracer (`fickling --trace`) and a hand-driven Interpreter are decompilers too: whatever
+    program they return must contain the VM's imports and calls, or they must refuse."""
+    import ast
+    import contextlib
+    import io
+    from fickling import tracing
+    f = de.fickle()
+    agg = ctx.agg
+    for path in ("trace", "interpreter"):
+        try:
+            interp = f.Interpreter(f.Pickled.load(data))
+            if path == "trace":
+                with contextlib.redirect_stdout(io.StringIO()):
+                    mod = tracing.Trace(interp).run()
+            else:
+                mod = interp.to_ast()
+            if mod is None:
+                continue
+            src = ast.unparse(mod)
+        except RecursionError:
+            return
+        except Exception:
+            agg.count(f"path_refused:{path}")
+            continue
+        agg.count(f"path_decompiled:{path}")
+        if o.fick_ok and src == o.src:
+            continue
+        try:
+            log, _val, _g = refvm.exec_decompiled(src)
+        except Exception:
+            if o.fick_ok:
+                continue        # C05 reports programs that do not run
+            log = None
+        missing = [("exec-failed", None)] if log is None else refvm.missing_events(o.ref_log, log)
+        if o.fick_ok and o.missing:      # already reported (and classified) for the default path
+            base = [m[0] for m in o.missing]
+            missing = [m for m in missing if m[0] not in base]
+        if missing and not de.scheme_name_collision(o):
+            agg.violation(f"path-drops-events:{path}",
+                          f"decompilation through the {path} path returned a program from which imports/calls of the VM "
+                          f"are missing" + ("" if o.fick_ok else " (the default path refuses this pickle)"),
+                          diffrun.witness(label, data, names, decompile=src[:600], missing_event=str(missing[0][0])[:200],
+                                          default_path="decompiled" if o.fick_ok else "refused"))
+            return
 
 
 def run_shard(ctx):
